@@ -2,14 +2,14 @@
 # tools/confirm_mutant.sh WORKTREE X   — confirm a sub-agent change in its scratch worktree:
 # applies MUTANTS/X.diff to the pristine worktree, runs the unedited suite and the demo (must fail),
 # reverts, runs the demo again (must pass). Prints a summary line. Uses a shared target dir.
-WT="$1"; X="$2"
+WT="$1"; X="$2"; MD="${3:-MUTANTS}"
 export CARGO_NET_OFFLINE=true CARGO_TARGET_DIR=/tmp/mut-target
 cd "$WT" || exit 2
 git checkout -q -- . ; git clean -fdq tests 2>/dev/null
-git apply "MUTANTS/$X.diff" || { echo "RESULT $WT $X patch-does-not-apply"; exit 1; }
+git apply "$MD/$X.diff" || { echo "RESULT $WT $X patch-does-not-apply"; exit 1; }
 cargo build --offline --features toml,miette >/dev/null 2>&1 || { echo "RESULT $WT $X does-not-build"; git checkout -q -- .; exit 1; }
 SUITE=$(cargo test --workspace --no-fail-fast --offline 2>&1 | grep -E "^test result" | tr '\n' ' ')
-mkdir -p tests; cp "MUTANTS/demo_$X.rs" tests/demo_mut.rs
+mkdir -p tests; cp "$MD/demo_$X.rs" tests/demo_mut.rs
 WITH=$(cargo test --offline --features toml,miette --test demo_mut 2>&1 | grep -E "^test result|error(\[|:)" | head -2 | tr '\n' ' ')
 git checkout -q -- src Cargo.toml
 WITHOUT=$(cargo test --offline --features toml,miette --test demo_mut 2>&1 | grep -E "^test result|error(\[|:)" | head -2 | tr '\n' ' ')
